@@ -13,6 +13,7 @@ import (
 	dtlsstate "github.com/pion/dtls/v3/internal/state"
 	"github.com/pion/dtls/v3/pkg/crypto/clientcertificate"
 	"github.com/pion/dtls/v3/pkg/protocol"
+	"github.com/pion/dtls/v3/pkg/protocol/alert"
 	"github.com/pion/dtls/v3/pkg/protocol/handshake"
 	"github.com/pion/dtls/v3/pkg/protocol/recordlayer"
 )
@@ -275,5 +276,49 @@ func zzSeqOnWire13() {
 		zzsymCover("current_epoch")
 	} else {
 		zzsymCover("superseded_epoch")
+	}
+}
+
+// DTLS 1.3 records that leave UNPROTECTED (ShouldEncrypt not set: ClientHello / ServerHello / HelloRetryRequest in
+// epoch 0, and an alert raised before the handshake is established, which carries the endpoint's current epoch 0 or
+// 2): processPacket puts on the wire exactly the pair (packet epoch, number just allocated from THAT epoch's
+// counter), for arbitrary per-epoch counters; the counter of that epoch advances by one and no other counter moves; a
+// second record gets the next number. So an unprotected record never borrows a number from one epoch's counter and
+// shows it under another epoch (which would repeat a pair already used there).
+//
+//symgo:entry covers=plain13_epoch0,plain13_epoch2
+func zzSeqOnWire13Unprotected() {
+	c := zzConn12(&zzFakeSuite{})
+	st := dtlsstate.Activate13(c.state)
+	c.state = st
+	st.LocalVersion = protocol.Version1_3
+	st.LocalSequenceNumber = []uint64{zzsymU64("ctr0"), zzsymU64("ctr1"), zzsymU64("ctr2")}
+	e := uint16(2 * zzsymChoice("packet_epoch", 2))
+	st.SetLocalEpoch(e)
+	before := append([]uint64{}, st.LocalSequenceNumber...)
+	zzsymAssume(before[e] <= recordlayer.MaxSequenceNumber-2)
+	for k := 0; k < 2; k++ {
+		pkt := &dtlsflight.Packet{Record: &recordlayer.RecordLayer{
+			Header:  recordlayer.Header{Epoch: e, Version: protocol.Version1_2},
+			Content: &alert.Alert{Level: alert.Level(zzsymU8("lvl")), Description: alert.Description(zzsymU8("desc"))},
+		}}
+		raw, err := c.processPacket(pkt)
+		zzsymAssert(err == nil, "process_ok")
+		var h recordlayer.Header
+		zzsymAssert(h.Unmarshal(raw) == nil, "wire_header_parses")
+		zzsymAssert(h.Epoch == e, "wire_epoch_is_packet_epoch")
+		zzsymAssert(h.SequenceNumber == before[e]+uint64(k), "wire_seq_is_allocated_from_wire_epoch")
+	}
+	for i := range before {
+		want := before[i]
+		if i == int(e) {
+			want += 2
+		}
+		zzsymAssert(st.LocalSequenceNumber[i] == want, "only_the_wire_epochs_counter_advances")
+	}
+	if e == 0 {
+		zzsymCover("plain13_epoch0")
+	} else {
+		zzsymCover("plain13_epoch2")
 	}
 }
